@@ -62,13 +62,15 @@ func (proxy *multicastProxy) AddMember(m io.Closer) {
 			}
 		}
 
-		proxy.members = append(proxy.members, m)
 		proxy.cid = stream.StartConsume(proxy, media.RTPPacket,
 			"net = rtsp-multicast, "+proxy.multicastIP)
 		proxy.closed = false
 
 		proxy.logger.Info("multicast proxy started.")
 	}
+
+	// 每个成员都要登记（不只是启动代理的第一个），否则第一个成员离开就会停掉仍有人观看的组播
+	proxy.members = append(proxy.members, m)
 }
 
 func (proxy *multicastProxy) ReleaseMember(m io.Closer) {
